@@ -551,6 +551,11 @@ func (st *Runtime) executeList(list *ListNode) (returnValue reflect.Value) {
 				if has == false || block == nil {
 					node.errorf("unresolved block %q!!", node.Name)
 				}
+				for i := range node.Parameters.List {
+					if p := &node.Parameters.List[i]; p.Expression == nil {
+						node.errorf("yield of block %q: argument %q has no value", node.Name, p.Identifier)
+					}
+				}
 				returnValue = st.executeYieldBlock(block, block.Parameters, node.Parameters, node.Expression, node.Content)
 			}
 		case NodeBlock:
